@@ -75,8 +75,8 @@ structure Cfg where
   firstTypedWildOne : Bool := true
   /-- has.go: the kind lists of the inner branches lack `reflect.Map`, a typed map is never pushed -/
   hasTypedMap : Bool := true
-  /-- has.go, Descent: no case for typed data (the `default:` of get.go is missing): a descent at a
-  struct, typed slice, array or map selects nothing -/
+  /-- has.go, Descent: the `default:` case of get.go is missing: a descent at a struct, typed slice, array
+  or map selects nothing, and a non-container handed to a descent does not set the descent flag -/
   hasTypedDescent : Bool := true
   /-- slice.go `Slice.Walk` takes the length of `reflect.Slice` only, filter.go `Filter.Walk` handles
   `reflect.Slice` only: typed arrays are skipped -/
@@ -577,7 +577,7 @@ def Has.inner (cfg : Cfg) (rep : Rep) (f : Frag) (v : JV) : List (Path × JV) :=
 
 def Has.sel (cfg : Cfg) (rep : Rep) : Sel :=
   { last := First.last cfg rep, inner := Has.inner cfg rep,
-    sets := fun v => isContainer v && !(cfg.hasTypedDescent && First.typedNode rep v) }
+    sets := fun v => !cfg.hasTypedDescent || (isContainer v && !First.typedNode rep v) }
 
 def hasM (cfg : Cfg) (rep : Rep) (x : List Frag) (d : JV) : Bool :=
   !(evalSel (Has.sel cfg rep) cfg.descentSiblings x d).isEmpty
